@@ -3,6 +3,6 @@ CONSTANTS
   MinK = 2
   MaxK = 8
   SliceOff = 0
-  MaxLeaves = 13
+  MaxLeaves = 12
 INVARIANT MCInvs
 CHECK_DEADLOCK FALSE
